@@ -2621,6 +2621,9 @@ static void SwitchTo_S12Z(void) {
     DissectBit         = DissectBit_S12Z;
     InitFields();
     AddMoto16PseudoONOFF();
+
+    /* the default of this target, not what the previous one left behind */
+    SetFlag(&DoPadding, DoPaddingName, False);
 }
 
 void codes12z_init(void) {
